@@ -280,7 +280,8 @@ fn gen_opts(rng: &mut Rng, n: usize, n_lcs: u32) -> Opts {
             let k = 1 + rng.usize_below(3);
             let mut fs = Vec::new();
             for _ in 0..k {
-                let kind = *rng.pick(&[0u8, 0, 1]);
+                // positive, negative and - without any effect on what convert selects - marker (2) and event (3) filters
+                let kind = *rng.pick(&[0u8, 0, 1, 2, 3]);
                 let mut f = gen_filter(rng, kind);
                 f.not = false;
                 f.lifecycles = None;
